@@ -39,7 +39,7 @@ Inductive kret :=
 Record kobs := mkKobs
   { otrace : list op;     (* requests received by the wheel; a tick comes first for KTick *)
     ofired : fired;       (* callbacks run by the wheel *)
-    okeys : list Z;       (* keys of the cache afterwards, sorted *)
+    okeys : list Z;       (* keys of the cache afterwards (a Go map: no duplicates) *)
     oret : kret }.
 
 (* run a segment of requests on the due-map, collecting the callbacks *)
@@ -64,6 +64,9 @@ Definition sort_spec (m : spec) : spec := fold_right insert_entry [] m.
 Definition spec_eqb (a b : spec) : bool := list_eqb spec_entry_eqb (sort_spec a) (sort_spec b).
 
 Definition mem_z (k : Z) (l : list Z) : bool := existsb (Z.eqb k) l.
+
+Definition same_keys (a b : list Z) : bool :=
+  forallb (fun x => mem_z x b) a && forallb (fun x => mem_z x a) b.
 
 Definition keep_keys (ks : list Z) (m : spec) : spec :=
   filter (fun kv => mem_z (fst kv) ks) m.
@@ -125,7 +128,7 @@ Fixpoint client_ok (i : Z) (m w : spec) (h : list (kop * kobs)) : bool :=
       && spec_eqb m1 w1                                     (* the wheel holds the client's timers *)
       && match o with
          | KDrain => true
-         | _ => zs_eqb (sort_z (map fst m1)) (sort_z (okeys b))   (* one timer per entry *)
+         | _ => same_keys (map fst m1) (okeys b)   (* one timer per entry, none besides *)
          end
       && client_ok i m1 w1 h'
     end
